@@ -207,8 +207,32 @@ def fresh_seq(st, n, elem_shape, hint, measure=None):
             bounds = [lf(*qs) >= shape.min_len] + ([lf(*qs) <= shape.max_len] if shape.max_len is not None else [])
             st.assume(z3.ForAll(qs, z3.And(*bounds)))
 
-            def g(*idx, lf=lf, inner=inner, shape=shape):
-                return SSeq(mk_int(lf(*zs(idx))), lambda j: inner(*idx, j), shape.elem, None, name=f"{base}{path}[]")
+            # rows of records (Tup) / variant records (Union of Tups): component prefix sums of each row, for the
+            # plain-int components every alternative has -- one function per component taking the row's indices and
+            # the position, defining equation instantiated wherever an element of the row is read (as for a flat list)
+            ralts = shape.elem.cases() if isinstance(shape.elem, (S.Union, S.Tup)) else []
+            rcomps = []
+            if ralts and all(isinstance(a_, S.Tup) for a_ in ralts):
+                rcomps = [c for c in range(min(len(a_.items) for a_ in ralts)) if all(isinstance(a_.items[c], S._Int) for a_ in ralts)]
+            rfns = {c: z3.Function(f"{base}{path}[].{c}$psum", *dom, z3.IntSort(), z3.IntSort()) for c in rcomps}
+
+            def g(*idx, lf=lf, inner=inner, shape=shape, rfns=rfns):
+                def rget(j):
+                    v = inner(*idx, j)
+                    zj = zint(j)
+                    for c, f in rfns.items():
+                        cur().assume(f(*zs(idx), zj + 1) == f(*zs(idx), zj) + zint(elt_comp(v, c)))
+                    return v
+
+                row = SSeq(mk_int(lf(*zs(idx))), rget if rfns else (lambda j: inner(*idx, j)), shape.elem, None, name=f"{base}{path}[]")
+                for c, f in rfns.items():
+
+                    def cps(k, f=f):
+                        cur().assume(f(*zs(idx), z3.IntVal(0)) == 0)
+                        return mk_int(f(*zs(idx), zint(k)))
+
+                    row.cpsum[c] = cps
+                return row
 
             return g
         if isinstance(shape, S.Union):
